@@ -1,6 +1,7 @@
 package zv
 
 import (
+	"os"
 	"fmt"
 	"go/constant"
 	"go/token"
@@ -424,6 +425,10 @@ type ConcCfg struct {
 	// SliceLen fixes the length of a slice parameter of the explored function: slices of it with evident bounds are
 	// then tracked as intervals (ConcState.SliceOf), len() of them is evident.
 	SliceLen func(p *ssa.Parameter) (int64, bool)
+	// MaxDepth: how many helper frames deep calls are explored inline (default 5).
+	MaxDepth int
+	// InitFields: what integer/boolean fields of objects reachable from the parameters hold on entry.
+	InitFields []FieldVal
 	// Fork lets a rule split the path after an instruction that was not explored inline (an opaque call, the Extract of
 	// its result): one successor per alternative, each with the given facts about values and its own event.
 	Fork      func(in ssa.Instruction, st *ConcState) []ConcAlt
@@ -452,6 +457,14 @@ type ConcAlt struct {
 	Ints   map[ssa.Value]int64
 	Nils   map[ssa.Value]bool
 	Slices map[ssa.Value]SliceFact
+	Fields []FieldVal
+}
+
+// FieldVal: field Field of the struct that Obj denotes holds Val.
+type FieldVal struct {
+	Obj   ssa.Value
+	Field string
+	Val   int64
 }
 
 // stackDepth is a placeholder kept for rules that want to know whether an event happens in the root function; the
@@ -547,6 +560,20 @@ func ConcPaths(fn *ssa.Function, cfg ConcCfg) (seqs []string, truncated bool) {
 		loopHead := LoopHeader(to) == to
 		ns := st
 		cloned := false
+		if loopHead && cfg.MaxIter == 0 {
+			// safety net: a loop whose body adds events never reaches a state seen before; give up on the path (and
+			// report the exploration as incomplete) instead of walking it for ever
+			if st.iters[to] > 40 {
+				truncated = true
+				return
+			}
+			ns = st.clone()
+			cloned = true
+			if ns.iters == nil {
+				ns.iters = map[*ssa.BasicBlock]int{}
+			}
+			ns.iters[to]++
+		}
 		if loopHead && cfg.MaxIter > 0 {
 			if st.iters[to] > cfg.MaxIter {
 				if cfg.Cut != nil {
@@ -741,6 +768,7 @@ func ConcPaths(fn *ssa.Function, cfg ConcCfg) (seqs []string, truncated bool) {
 					}
 				}
 			}
+			st0 := st // what held before this instruction took effect (Fork looks at this)
 			switch x := in.(type) {
 			case *ssa.Defer:
 				if sc := x.Call.StaticCallee(); sc != nil && len(sc.Blocks) > 0 && curProgRoot(sc) && sc.Parent() == nil {
@@ -1031,7 +1059,11 @@ func ConcPaths(fn *ssa.Function, cfg ConcCfg) (seqs []string, truncated bool) {
 						h = sc
 					}
 				}
-				if h == nil || len(h.Blocks) == 0 || len(stack) >= 5 || cfg.Inline != nil && h.Synthetic == "" && !cfg.Inline(h) {
+				maxDepth := 5
+				if cfg.MaxDepth > 0 {
+					maxDepth = cfg.MaxDepth
+				}
+				if h == nil || len(h.Blocks) == 0 || len(stack) >= maxDepth || cfg.Inline != nil && h.Synthetic == "" && !cfg.Inline(h) {
 					if len(st.fmem) > 0 || len(st.fvals) > 0 {
 						_, isBuiltin := x.Call.Value.(*ssa.Builtin)
 						if sc := StaticCallee(x); !isBuiltin && (sc == nil || curProgRoot(sc)) {
@@ -1044,6 +1076,13 @@ func ConcPaths(fn *ssa.Function, cfg ConcCfg) (seqs []string, truncated bool) {
 								args = append([]ssa.Value{x.Call.Value}, args...)
 							} else if sc == nil {
 								all = true // a call through an unknown function value
+								if u, ok := x.Call.Value.(*ssa.UnOp); ok && u.Op == token.MUL {
+									if _, isG := u.X.(*ssa.Global); isG {
+										// a package-level function variable: it can reach what it is handed, and
+										// globals - not the objects of this path
+										all = false
+									}
+								}
 							}
 							for _, a := range args {
 								switch types.Unalias(a.Type()).Underlying().(type) {
@@ -1065,6 +1104,9 @@ func ConcPaths(fn *ssa.Function, cfg ConcCfg) (seqs []string, truncated bool) {
 							}
 							for k := range st.fmem {
 								if drop(k) {
+									if os.Getenv("ZV_DEBUG2") != "" {
+										println("DROP", k, "at", x.String(), "reach", strings.Join(reach, "|"), all)
+									}
 									delete(st.fmem, k)
 								}
 							}
@@ -1173,7 +1215,7 @@ func ConcPaths(fn *ssa.Function, cfg ConcCfg) (seqs []string, truncated bool) {
 				return
 			}
 			if cfg.Fork != nil {
-				if alts := cfg.Fork(in, st); len(alts) > 0 {
+				if alts := cfg.Fork(in, st0); len(alts) > 0 {
 					for _, a := range alts {
 						ns := st.clone()
 						for v, kv := range a.Ints {
@@ -1188,6 +1230,14 @@ func ConcPaths(fn *ssa.Function, cfg ConcCfg) (seqs []string, truncated bool) {
 							}
 							ns.slices[v] = f
 						}
+						for _, fv := range a.Fields {
+							if ns.fmem == nil {
+								ns.fmem = map[string]int64{}
+							}
+							key := ns.fieldKey(fv.Obj, fv.Field)
+							ns.fmem[key] = fv.Val
+							delete(ns.fvals, key)
+						}
 						nev := ev
 						if a.Ev != "" {
 							nev = append(append([]string{}, ev...), a.Ev)
@@ -1200,6 +1250,12 @@ func ConcPaths(fn *ssa.Function, cfg ConcCfg) (seqs []string, truncated bool) {
 		}
 	}
 	st := &ConcState{ints: map[ssa.Value]int64{}, nils: map[ssa.Value]bool{}, syms: map[ssa.Value]string{}, alias: map[ssa.Value]ssa.Value{}, mem: map[*ssa.Alloc]ssa.Value{}, cfg: &cfg}
+	for _, fv := range cfg.InitFields {
+		if st.fmem == nil {
+			st.fmem = map[string]int64{}
+		}
+		st.fmem[st.fieldKey(fv.Obj, fv.Field)] = fv.Val
+	}
 	if cfg.SliceLen != nil {
 		for _, p := range fn.Params {
 			if n, ok := cfg.SliceLen(p); ok {
@@ -1607,13 +1663,17 @@ func baseKey(st *ConcState, v ssa.Value) string {
 	return strings.TrimSuffix(k, ".")
 }
 
-// FieldOf reports what field `field` of the struct that obj denotes (an allocation, or a load of one) holds on this
-// path: an evident integer/boolean, or the value last stored (nil if nothing is known).
-func (st *ConcState) FieldOf(obj ssa.Value, field string) (k int64, isInt bool, val ssa.Value) {
+// fieldKey: the key under which field `field` of the struct that obj denotes (an allocation, a pointer to or a load
+// of one, possibly wrapped in an interface) is remembered.
+func (st *ConcState) fieldKey(obj ssa.Value, field string) string {
 	v := obj
-	for i := 0; i < 8; i++ {
+	for i := 0; i < 12; i++ {
 		if u, ok := v.(*ssa.UnOp); ok && u.Op == token.MUL {
 			v = u.X
+			continue
+		}
+		if mi, ok := v.(*ssa.MakeInterface); ok {
+			v = mi.X
 			continue
 		}
 		if nx := st.alias[v]; nx != nil {
@@ -1622,7 +1682,13 @@ func (st *ConcState) FieldOf(obj ssa.Value, field string) (k int64, isInt bool, 
 		}
 		break
 	}
-	key := strings.TrimSuffix(addrKey(st, v), ".") + "." + field
+	return strings.TrimSuffix(addrKey(st, v), ".") + "." + field
+}
+
+// FieldOf reports what field `field` of the struct that obj denotes (an allocation, or a load of one) holds on this
+// path: an evident integer/boolean, or the value last stored (nil if nothing is known).
+func (st *ConcState) FieldOf(obj ssa.Value, field string) (k int64, isInt bool, val ssa.Value) {
+	key := st.fieldKey(obj, field)
 	if n, ok := st.fmem[key]; ok {
 		return n, true, nil
 	}
